@@ -610,10 +610,10 @@ def first_diff(exp, got):
 
 
 class Case:
-    __slots__ = ("id", "fam", "text", "exp", "feats", "info")
+    __slots__ = ("id", "fam", "text", "exp", "feats", "info", "tree")
 
-    def __init__(self, cid, fam, text, exp, feats, info):
-        self.id, self.fam, self.text, self.exp, self.feats, self.info = cid, fam, text, exp, feats, info
+    def __init__(self, cid, fam, text, exp, feats, info, tree=None):
+        self.id, self.fam, self.text, self.exp, self.feats, self.info, self.tree = cid, fam, text, exp, feats, info, tree
 
 
 def judge(rep, c, res, sig_extra=None):
@@ -652,30 +652,126 @@ def judge(rep, c, res, sig_extra=None):
     return False
 
 
-def build_cases(tier, seed, jobs, rep):
+# ------------------------------------------------------------------------------------------------
+# shrinking a refuted script (triage aid: the witness then also carries a minimal script)
+# ------------------------------------------------------------------------------------------------
+def _paths(t, path=()):
+    yield path, t
+    for i, c in enumerate(t):
+        if i > 0 and isinstance(c, tuple) and c and isinstance(c[0], str) and c[0] in OPS:
+            yield from _paths(c, path + (i,))
+
+
+def _replace(t, path, new):
+    if not path:
+        return new
+    i = path[0]
+    return t[:i] + (_replace(t[i], path[1:], new),) + t[i + 1:]
+
+
+def _disagrees(b, env, segs):
+    text = script_text(segs)
+    cid, fam, text, exp, feats, info = _model_one(("shr", "shrink", text))
+    if exp is None or info["unspecified"]:
+        return None
+    r1, _p = C.run_file(b, IMPORTS, HEADER, [("shr", "(%%c6 shr %s)" % text)], env_extra=env, timeout=20, heap="16M/256M")
+    r = r1.get("shr")
+    if r is None or r.status == "missing":
+        return None
+    if r.status in ("crash", "timeout"):
+        return (text, exp, r.status)
+    try:
+        got = r.data()
+        if len(got) == 1 and got[0] == sexpr.parse(exp):
+            return None
+    except Exception:
+        pass
+    return (text, exp, r.text.strip()[:600])
+
+
+def shrink(b, env, segs, budget=45):
+    """greedy: replace a subtree by one of its own subtrees or by a constant while chibi and the model still disagree"""
+    segs = list(segs)
+    best = _disagrees(b, env, segs)
+    if best is None:
+        return None
+    budget -= 1
+    progress = True
+    while progress and budget > 0:
+        progress = False
+        cands = []
+        if len(segs) > 1:
+            for i in range(len(segs)):
+                cands.append(segs[:i] + segs[i + 1:])
+        for si, seg in enumerate(segs):
+            for path, node in _paths(seg):
+                if node[0] == "val":
+                    continue
+                subs = [c for c in node[1:] if isinstance(c, tuple) and c and isinstance(c[0], str) and c[0] in OPS]
+                for new in subs + [("val", 1)]:
+                    cands.append(segs[:si] + [_replace(seg, path, new)] + segs[si + 1:])
+        for cand in cands:
+            if budget <= 0:
+                break
+            budget -= 1
+            d = _disagrees(b, env, cand)
+            if d is not None:
+                segs, best, progress = cand, d, True
+                break
+    return {"form": best[0], "expected": best[1], "got": best[2]}
+
+
+def iter_items(tier, seed):
+    """yields (id, family, script text) for the whole workload of the tier, in a reproducible order"""
     rng = random.Random(seed * 7919 + 6)
-    items = []
     quick = tier == "quick"
     for i, t in enumerate(enum_k(7 if quick else 8)):
-        items.append(("ek%d" % i, "enum-k", script_text([t])))
+        yield ("ek%d" % i, "enum-k", script_text([t]), [t])
     for i, t in enumerate(enum_x(4 if quick else 5)):
-        items.append(("ex%d" % i, "enum-x", script_text([t])))
-    nrand = 6000 if quick else 150000
-    for i in range(nrand):
+        yield ("ex%d" % i, "enum-x", script_text([t]), [t])
+    for i in range(6000 if quick else 150000):
         prof, segs = rand_script(rng)
-        items.append(("r%d" % i, "rand:" + prof, script_text(segs)))
-    npp = 600 if quick else 6000
-    for i in range(npp):
-        items.append(("pp%d" % i, "pingpong", pingpong_text(rng)))
-    modelled = model_all(items, jobs)
+        yield ("r%d" % i, "rand:" + prof, script_text(segs), segs)
+    for i in range(600 if quick else 6000):
+        yield ("pp%d" % i, "pingpong", pingpong_text(rng), None)
+
+
+def chunks(it, n):
+    buf = []
+    for x in it:
+        buf.append(x)
+        if len(buf) >= n:
+            yield buf
+            buf = []
+    if buf:
+        yield buf
+
+
+class Tally:
+    def __init__(self):
+        self.generated = 0
+        self.dropped = {"unspecified": 0, "budget": 0, "raised": 0}
+        self.thinned = 0
+        self.fam_n = {}
+        self.fam_rew = {}
+        self.reentry = 0
+        self.ran = 0
+        self.agree = 0
+        self.feat = {}
+        self.rerun = 0
+        self.shrunk = 0
+        self.samples = {}
+
+
+def select_cases(modelled, seed, k, tally):
+    """drop what the model could not decide; thin the non-rewinding random scripts (bias)"""
     cases = []
-    dropped = {"unspecified": 0, "budget": 0, "raised": 0}
     for cid, fam, text, exp, feats, info in modelled:
         if exp is None:
-            dropped[feats] = dropped.get(feats, 0) + 1      # feats holds the kind here
+            tally.dropped[feats] = tally.dropped.get(feats, 0) + 1      # feats holds the kind here
             continue
         if info["unspecified"]:
-            dropped["unspecified"] += 1
+            tally.dropped["unspecified"] += 1
             continue
         cases.append(Case(cid, fam, text, exp, feats, info))
     # bias: keep every rewinding random script, thin out the others so that >= 40 % of the random family
@@ -684,46 +780,97 @@ def build_cases(tier, seed, jobs, rep):
     rew = [c for c in rnd if c.info["rewinding"]]
     non = [c for c in rnd if not c.info["rewinding"]]
     keep_non = min(len(non), int(len(rew) * 1.5))
-    rng2 = random.Random(seed * 31 + 7)
-    rng2.shuffle(non)
+    random.Random(seed * 31 + 7 + k).shuffle(non)
     drop_ids = {c.id for c in non[keep_non:]}
-    cases = [c for c in cases if c.id not in drop_ids]
-    rep.extra["generated"] = len(items)
-    rep.extra["dropped_by_model"] = dropped
-    rep.extra["thinned_non_rewinding"] = len(drop_ids)
-    return cases
+    tally.thinned += len(drop_ids)
+    return [c for c in cases if c.id not in drop_ids]
+
+
+def run_chunk(rep, b, env, cases, tally, procs_acc):
+    res, procs = C.run_batches(b, IMPORTS, HEADER, [(c.id, "(%%c6 %s %s)" % (c.id, c.text)) for c in cases],
+                               batch=400, env_extra=env, timeout=60, heap="16M/256M")
+    # a watchdog on a file of 400 scripts says little about one script: re-run the blamed script alone
+    # (a script takes milliseconds; alone, 20 s of silence is a hang, which the model excludes by construction)
+    slow = [c for c in cases if c.id in res and res[c.id].status == "timeout"]
+
+    def rerun(c):
+        r1, p1 = C.run_file(b, IMPORTS, HEADER, [(c.id, "(%%c6 %s %s)" % (c.id, c.text))], env_extra=env, timeout=20,
+                            heap="16M/256M")
+        return c, r1, p1
+    for c, r1, p1 in R.pmap(rerun, slow[:30]):
+        procs.extend(p1)
+        if c.id in r1:
+            res[c.id] = r1[c.id]
+    for c in slow[30:]:
+        res[c.id] = C.CaseResult("missing")
+    tally.rerun += len(slow)
+    for c in cases:
+        fam = c.fam.split(":")[0]
+        tally.fam_n[fam] = tally.fam_n.get(fam, 0) + 1
+        if c.info["rewinding"]:
+            tally.fam_rew[fam] = tally.fam_rew.get(fam, 0) + 1
+        if c.info["reentry"]:
+            tally.reentry += 1
+        nontrivial = c.info["throws"] + c.info["raises"] > 0
+        rep.case((fam, tuple(c.feats)) if nontrivial else None)
+        tally.ran += 1
+        nviol = len(rep.violations)
+        if judge(rep, c, res.get(c.id)):
+            tally.agree += 1
+        elif len(rep.violations) > nviol and c.tree is not None and tally.shrunk < 3:
+            tally.shrunk += 1
+            try:
+                m = shrink(b, env, c.tree)
+            except Exception as ex:           # triage aid only
+                m = {"shrink-failed": repr(ex)}
+            rep.violations[-1][1]["shrunk"] = m
+        rep.maxi("max_trace_len", c.info["trace_len"])
+        rep.maxi("max_wind_list_length", c.info["max_winds"])
+        rep.count("continuation_invocations", c.info["throws"])
+        rep.count("raises", c.info["raises"])
+        rep.count("wind_thunks_run_by_throws", c.info["wind_runs"])
+        for f in c.feats:
+            tally.feat[f] = tally.feat.get(f, 0) + 1
+        key = fam + ("+rewinding" if c.info["rewinding"] else "")
+        if len(tally.samples.get(key, [])) < 2:
+            r = res.get(c.id)
+            tally.samples.setdefault(key, []).append(
+                {"family": c.fam, "form": c.text, "expected": c.exp, "observed": r.text.strip()[:400] if r is not None else None,
+                 "features": c.feats})
+    if "__ghost__" in res:
+        rep.violation({"kind": "control-trace", "mode": "output-after-end"}, {"text": res["__ghost__"].text})
+    _heap(rep, procs)
+    procs_acc[0] += len(procs)
+
+
+def _heap(rep, procs):
+    for p in procs:
+        for l in p.log_lines("HEAPCHECK-FAIL"):
+            rep.violation({"kind": "heapcheck", "mode": l.split()[1] if len(l.split()) > 1 else "?"}, {"line": l})
+        for d in p.log_kv("HEAPCHECK-SUMMARY"):
+            rep.count("heap_checks", d.get("runs", 0))
+            rep.count("heap_objects_checked", d.get("objects", 0))
 
 
 def check(rep, tier, seed, variant="hooks"):
     b = B.ensure(variant)
     rep.builds.add(variant)
     jobs = R.JOBS
-    cases = build_cases(tier, seed, jobs, rep)
     env = {"CHIBI_VERIF_HEAPCHECK": 1}
-    res, procs = C.run_batches(b, IMPORTS, HEADER, [(c.id, "(%%c6 %s %s)" % (c.id, c.text)) for c in cases],
-                               batch=400, env_extra=env, timeout=60, heap="16M/256M")
-    fam_n = {}
-    fam_rew = {}
-    agree = 0
-    for c in cases:
-        fam = c.fam.split(":")[0]
-        fam_n[fam] = fam_n.get(fam, 0) + 1
-        if c.info["rewinding"]:
-            fam_rew[fam] = fam_rew.get(fam, 0) + 1
-        nontrivial = c.info["throws"] + c.info["raises"] > 0
-        rep.case((fam, tuple(c.feats)) if nontrivial else None)
-        if judge(rep, c, res.get(c.id)):
-            agree += 1
-        rep.maxi("max_trace_len", c.info["trace_len"])
-        rep.maxi("max_wind_depth", c.info["max_winds"])
-        rep.count("continuation_invocations", c.info["throws"])
-        rep.count("raises", c.info["raises"])
-        rep.count("wind_thunks_run_by_throws", c.info["wind_runs"])
-    if "__ghost__" in res:
-        rep.violation({"kind": "control-trace", "mode": "output-after-end"}, {"text": res["__ghost__"].text})
+    tally = Tally()
+    nproc = [0]
+    for k, items in enumerate(chunks(iter_items(tier, seed), 24000)):      # bounded memory in the thorough tier
+        tally.generated += len(items)
+        trees = {it[0]: it[3] for it in items}
+        cases = select_cases(model_all([it[:3] for it in items], jobs), seed, k, tally)
+        for c in cases:
+            c.tree = trees.get(c.id)
+        del trees
+        run_chunk(rep, b, env, cases, tally, nproc)
     # ---- eval family: own processes, own signature
     rng = random.Random(seed * 7919 + 66)
-    ev_items = [("ev%d" % i, "eval:" + name, script_text(segs)) for i, (name, segs) in enumerate(eval_scripts(rng, 18 if tier == "quick" else 90))]
+    ev_items = [("ev%d" % i, "eval:" + name, script_text(segs))
+                for i, (name, segs) in enumerate(eval_scripts(rng, 18 if tier == "quick" else 90))]
     ev_cases = [Case(cid, fam, text, exp, feats, info) for cid, fam, text, exp, feats, info in _model_chunk(ev_items)
                 if exp is not None and not info["unspecified"]]
 
@@ -731,8 +878,9 @@ def check(rep, tier, seed, variant="hooks"):
         return c, C.run_file(b, IMPORTS, HEADER, [(c.id, "(%%c6 %s %s)" % (c.id, c.text))], env_extra=env, timeout=30,
                              heap="16M/256M")
     ev_agree = 0
+    ev_procs = []
     for c, (r1, p1) in R.pmap(run_one, ev_cases):
-        procs.extend(p1)
+        ev_procs.extend(p1)
         rep.case(("eval", c.fam, tuple(c.feats)))
         if "__ghost__" in r1:
             rep.violation({"kind": "nested-loop-escape", "via": "eval", "mode": "output-after-end", "shape": c.fam},
@@ -740,32 +888,28 @@ def check(rep, tier, seed, variant="hooks"):
             continue
         if judge(rep, c, r1.get(c.id), {"kind": "nested-loop-escape", "via": "eval", "shape": c.fam}):
             ev_agree += 1
-    # ---- heap invariants seen along the way
-    for p in procs:
-        for l in p.log_lines("HEAPCHECK-FAIL"):
-            rep.violation({"kind": "heapcheck", "mode": l.split()[1] if len(l.split()) > 1 else "?"}, {"line": l})
-        for d in p.log_kv("HEAPCHECK-SUMMARY"):
-            rep.count("heap_checks", d.get("runs", 0))
-            rep.count("heap_objects_checked", d.get("objects", 0))
-    for c in cases[:3] + [c for c in cases if c.fam.startswith("rand") and c.info["rewinding"]][:3] + \
-            [c for c in cases if c.fam == "pingpong"][:2] + ev_cases[:2]:
-        r = res.get(c.id)
-        rep.sample({"family": c.fam, "form": c.text, "expected": c.exp,
-                    "observed": r.text.strip()[:400] if r is not None else "(own process)", "features": c.feats})
-    rnd_n = fam_n.get("rand", 0)
-    rep.extra["scripts_per_family"] = fam_n
-    rep.extra["scripts_agreeing"] = agree
+    _heap(rep, ev_procs)
+    for key in sorted(tally.samples):
+        for smp in tally.samples[key][:1]:
+            rep.sample(smp)
+    for c in ev_cases[:2]:
+        rep.sample({"family": c.fam, "form": c.text, "expected": c.exp, "observed": "(own process; agreed)" if ev_agree == len(ev_cases) else "(own process)",
+                    "features": c.feats})
+    rnd_n = tally.fam_n.get("rand", 0)
+    rep.extra["generated"] = tally.generated
+    rep.extra["dropped_by_model"] = tally.dropped
+    rep.extra["thinned_non_rewinding"] = tally.thinned
+    rep.extra["scripts_per_family"] = tally.fam_n
+    rep.extra["scripts_agreeing"] = tally.agree
+    rep.extra["scripts_rerun_alone_after_watchdog"] = tally.rerun
     rep.extra["eval_family_scripts"] = len(ev_cases)
     rep.extra["eval_family_agreeing"] = ev_agree
-    rep.extra["rewinding_fraction_random_family"] = round(fam_rew.get("rand", 0) / rnd_n, 3) if rnd_n else None
-    rep.extra["rewinding_fraction_all"] = round(sum(fam_rew.values()) / max(1, len(cases)), 3)
-    rep.extra["reentry_fraction_all"] = round(sum(1 for c in cases if c.info["reentry"]) / max(1, len(cases)), 3)
-    rels = {}
-    for c in cases:
-        for f in c.feats:
-            rels[f] = rels.get(f, 0) + 1
-    rep.extra["scripts_per_feature"] = dict(sorted(rels.items()))
-    rep.extra["processes"] = len(procs)
+    rep.extra["rewinding_fraction_random_family"] = round(tally.fam_rew.get("rand", 0) / rnd_n, 3) if rnd_n else None
+    rep.extra["rewinding_scripts_per_family"] = tally.fam_rew
+    rep.extra["rewinding_fraction_all"] = round(sum(tally.fam_rew.values()) / max(1, tally.ran), 3)
+    rep.extra["reentry_fraction_all"] = round(tally.reentry / max(1, tally.ran), 3)
+    rep.extra["scripts_per_feature"] = dict(sorted(tally.feat.items()))
+    rep.extra["processes"] = nproc[0] + len(ev_procs)
     rep.rule = ("one case = one control script (a single top-level form); families: exhaustive trees over "
                 "{dynamic-wind, capture/throw of 2 continuations, non-tail context, sequencing} and over {wind, handler, "
                 "guard, parameterize, raise kinds} below a size bound, seeded biased sampling above it (wind depth <= 4, 3 "
@@ -773,8 +917,38 @@ def check(rep, tier, seed, variant="hooks"):
                 "converter), coroutine ping-pong, and a separately judged eval family; a script is non-trivial when the "
                 "model executed at least one continuation invocation or raise; distinct = (family, set of "
                 "{relation of source and target extent (same/ancestor/descendant/cousin) @ invocation site (+re = the "
-                "continuation had been exited), raise kind @ site} the model observed)")
+                "continuation had been exited), raise kind @ site} the model observed); 'rewinding' = some throw had "
+                "to run before thunks (re-entry of an exited extent or jump between cousin extents)")
     rep.assumptions = ["the reference interpreter vf/props/c06_ref.py implements the R7RS control model (it is the oracle)",
                        "the observation reader (vf/sexpr.py) is correct",
                        "R7RS 6.10: entering/leaving a before/after thunk by a continuation is unspecified and is never generated",
                        "write of symbols, small integers and lists is used to observe traces"]
+
+
+def replay(path):
+    """./check C06 --replay FILE: re-run the witnesses of a replay file on the current tree; exit 1 if any still disagrees"""
+    import json
+    with open(path) as fh:
+        d = json.load(fh)
+    b = B.ensure("hooks")
+    env = {"CHIBI_VERIF_HEAPCHECK": 1}
+    bad = 0
+    for i, w in enumerate(d.get("witnesses", [])):
+        form, exp = w.get("form"), w.get("expected")
+        if not form or not exp:
+            continue
+        r1, _p = C.run_file(b, IMPORTS, HEADER, [("rp%d" % i, "(%%c6 rp%d %s)" % (i, form))], env_extra=env, timeout=30,
+                            heap="16M/256M")
+        r = r1.get("rp%d" % i)
+        got = r.text.strip() if r is not None else None
+        try:
+            same = r is not None and r.status == "ok" and sexpr.parse(got) == sexpr.parse(exp)
+        except Exception:
+            same = False
+        print("witness %d: %s\n  expected %s\n  observed %s (%s)" % (i, "agrees now" if same else "STILL DISAGREES", exp, got,
+                                                                   r.status if r is not None else "no result"))
+        if not same:
+            bad += 1
+    if bad:
+        print("VIOLATION property=C06 replay=%s" % path)
+    return 1 if bad else 0
